@@ -10,8 +10,8 @@ for line in open(sys.argv[1]):
     if not m:
         continue
     src, code, vio, summary = Path(m.group(1)), int(m.group(2)), m.group(3), m.group(4)
-    mm = re.search(r"(C\d\d)/out/(\d+)$", str(src)) or re.search(r"benign/(C\d\d)-(\d+)$", str(src))
-    pid, k = mm.group(1), mm.group(2)
+    mm = re.search(r"(C\d\d)([a-z]?)/out/(\d+)$", str(src)) or re.search(r"benign/(C\d\d)-([a-z]?)(\d+)$", str(src))
+    pid, k = mm.group(1), mm.group(2) + mm.group(3)
     dst = V / "benign" / f"{pid}-{k}"
     dst.mkdir(parents=True, exist_ok=True)
     if src.resolve() != dst.resolve():
